@@ -55,6 +55,23 @@ def proj_seg(seg, scale=1, radius=None, rotkey=None):
     return ['?', repr(seg)]
 
 
+def wellformed_seg(s):
+    """Is an abstract segment type-correct for the TLA+ side (integers everywhere)?"""
+    def pt(p):
+        return isinstance(p, list) and len(p) == 2 and all(isinstance(v, int) and not isinstance(v, bool) and abs(v) < 2 ** 31 for v in p)
+    if not isinstance(s, list) or not s:
+        return False
+    if s[0] == 'L':
+        return len(s) == 3 and pt(s[1]) and pt(s[2])
+    if s[0] == 'Q':
+        return len(s) == 4 and all(pt(x) for x in s[1:])
+    if s[0] == 'C':
+        return len(s) == 5 and all(pt(x) for x in s[1:])
+    if s[0] == 'A':
+        return len(s) == 7 and pt(s[1]) and pt(s[2]) and pt(s[6]) and all(isinstance(v, int) for v in s[3:6])
+    return False
+
+
 EFF = lambda c, first: 'L' if (c.upper() == 'M' and not first) else c.upper()
 
 # ------------------------------------------------------------------ number spellings
